@@ -47,7 +47,7 @@ class Chan(Engine):
     nontrivial_rule = ('run = 1-3 seeded cases, each pushed through the fault grid of its codec; distinct = distinct trace-shape digest (codec, lengths, '
                        'fault kinds, outcome classes); non-trivial = at least one injected edit was evaluated')
     quick_runs = 1500
-    quick_runs_by_prop = {'C10': 3000, 'C11': 800}
+    quick_runs_by_prop = {'C10': 3000, 'C11': 700}
     assumptions = {
         'C10': ['a string of decoded length 4 equal to the checksum of the empty string has no version byte: not judged'],
         'C11': ['the <=4-substitution guarantee is asserted for substitutions by charset characters inside the data part and for HRP letters; '
@@ -95,6 +95,8 @@ class Chan(Engine):
                     n -= 1
                 if rng.random() < 0.15:
                     steps.append({'op': 'crafted', 'hrp': hrp, 'ver': rng.randint(0, 16), 'seed': rng.randrange(256)})
+                if rng.random() < 0.5:
+                    steps.append({'op': 'steered', 'hrp': hrp, 'ver': ver, 'prog': gen.rhex(rng, n), 'other': [rng.randrange(32) for _ in range(6)]})
                 steps.append({'op': 'bech32', 'hrp': hrp, 'ver': ver, 'prog': gen.rhex(rng, n),
                               'doubles': 'all' if (tier == 'thorough' and rng.random() < 0.04) else rng.choice([600, 1500]),
                               'multi': [[rng.randrange(1 << 16) for _ in range(8)] for _ in range(rng.choice([200, 400]))],
@@ -204,11 +206,16 @@ class Chan(Engine):
         # the payload may be handed over in any bytes-like flavour: a bytearray, a memoryview-free copy, or an
         # existing Base58Check object that carries ANOTHER version (re-tagging a payload for another chain)
         sel = a['multi'][0][2] if a['multi'] else 0
-        other = B58.CBase58Data.from_bytes(payload, (ver + 1 + sel % 255) % 256)
+        over = (ver + 1 + sel % 255) % 256
+        try:
+            other = B58.CBase58Data.from_bytes(payload, over)
+        except Exception as e:
+            ctx.check(False, 'C10.ref', 'encoding (version %d, %d-byte payload) raised %s' % (over, len(payload), type(e).__name__), plen=len(payload))
+            return
         try:
             decoded_other = B58.CBase58Data(str(other))
         except Exception as e:
-            ctx.check(False, 'C10.inverse', 'text form of (version %d, %d-byte payload) does not decode back: %s' % (other.nVersion, len(payload), type(e).__name__), plen=len(payload))
+            ctx.check(False, 'C10.inverse', 'text form of (version %d, %d-byte payload) does not decode back: %s' % (over, len(payload), type(e).__name__), plen=len(payload))
             decoded_other = other
         for flavour, pl in (('bytearray', bytearray(payload)), ('Base58Check object of version %d' % other.nVersion, other),
                             ('decoded Base58Check object', decoded_other)):
@@ -257,6 +264,16 @@ class Chan(Engine):
             for t in (text + c, c + text, text[:n // 2] + c + text[n // 2:], text + c + c):
                 self._b58_decode_check(t, 'with the whitespace/control character %r added' % c, fault='ws')
         ctx.fault('text.whitespace', 40)
+        # --- a byzantine encoder that takes the four check bytes from the wrong place: another window of
+        # the same digest, the single (not double) SHA-256, the digest of the payload without its version
+        # byte, the right bytes in the wrong order
+        body = bytes([ver]) + payload
+        dg = RB58.dsha(body)
+        import hashlib as _hl
+        cands = [dg[i:i + 4] for i in range(1, 29)] + [dg[:4][::-1], _hl.sha256(body).digest()[:4], RB58.dsha(payload)[:4], dg[:3] + dg[4:5]]
+        for c4 in cands:
+            self._b58_decode_check(RB58.encode(body + c4), 'with check bytes taken from the wrong place', fault='wrong-check')
+        ctx.fault('encoder.wrong-check-bytes', len(cands))
         # --- byte-layer faults before encoding (corruption at rest): reaches decoded lengths < 5
         raw = bytes([ver]) + payload + RB58.dsha(bytes([ver]) + payload)[:4]
         for p in range(len(raw)):
@@ -602,6 +619,42 @@ class Chan(Engine):
             raise
         except Exception as e:
             ctx.check(False, 'C11.codec', 'CBech32Data raised %s on a corrupted address' % type(e).__name__)
+
+    def _op_steered(self, a):
+        """Programs chosen so that the CHECKSUM takes a particular value (a random program never does):
+        all zero groups, zero but for the last bit, all ones, a repeat of the six data characters before it,
+        and one planned value.  Found by solving the (affine) checksum for the last six data groups."""
+        ctx, SA = self.ctx, self.SA
+        hrp, ver, prog = a['hrp'], a['ver'], bytes.fromhex(a['prog'])
+        tail = ([ver] + RB32.to5(prog))[-12:-6]
+        for name, target in (('all-q', [0] * 6), ('qqqqqp', [0, 0, 0, 0, 0, 1]), ('all-l', [31] * 6), ('repeat-of-data-tail', tail if len(tail) == 6 else [1] * 6),
+                             ('planned', a['other'])):
+            p2 = RB32.steer_program(hrp, ver, prog, target)
+            if p2 is None:
+                ctx.probe('steer-impossible')
+                continue
+            want = RB32.encode(hrp, ver, p2)
+            valid = RB32.decode(hrp, want) == (ver, p2)
+            try:
+                text = SA.encode(hrp, ver, p2)
+            except Exception as e:
+                text = 'raised %s' % type(e).__name__
+            ctx.carry()
+            if valid:
+                ctx.check(text == want, 'C11.codec', 'encode of a program whose checksum is %s gives %r, BIP173 gives %r' % (name, text, want), ver=ver, plen=len(p2), steer=name)
+                for t in (want, want.upper()):
+                    ctx.check(self._dec(hrp, t) == (ver, p2), 'C11.codec' if t == want else 'C11.case', 'the BIP173 address %r (checksum %s) does not decode to its program' % (t, name),
+                              ver=ver, plen=len(p2), steer=name)
+                # and its neighbours differing in the checksum only are all invalid
+                for q in range(1, 7):
+                    for c in 'qpl':
+                        if want[-q] != c:
+                            self._b32_judge(hrp, want[:-q] + c + want[len(want) - q + 1:], 'with checksum character %d substituted' % q, (ver, p2), True, fault='sub1')
+                if hrp in ('bc', 'tb', 'bcrt') and ver == 0:
+                    self._cbech32(hrp, want, (ver, p2))
+            ctx.fault('checksum-steered.' + name)
+        ctx.nontrivial = True
+        ctx.log(0, 0, 'steered', [hrp, ver, len(prog)], 'ok')
 
     def _op_codec_lengths(self, a):
         ctx, SA = self.ctx, self.SA
